@@ -15,7 +15,10 @@ def kindOfStr : String → R Kind
 
 def protoOfJson (i : Nat) (j : Json) : R Proto := do
   let defs ← listOf asNat (← fld j "defs")
-  return ⟨i, ← locOfJson (← fld j "loc"), ← locOfJson (← fld j "core"), defs⟩
+  let product := match j.getObjVal? "product" with
+    | .ok (.str s) => s
+    | _ => s!"p{i}"
+  return ⟨i, ← locOfJson (← fld j "loc"), ← locOfJson (← fld j "core"), defs, product⟩
 
 def candToJson (c : Cand) : Json :=
   jObj [("kind", Json.str (kindToStr c.kind)), ("members", toJson (c.members.map (·.id))), ("loc", locToJson c.loc)]
